@@ -40,6 +40,8 @@ struct Req {
     total: Option<u64>,
     responses: u64,
     terminal: Option<(u64, String)>,
+    /// the handler put the request on the wire (request-transmission log, H8); a queued request is not
+    transmitted: bool,
 }
 
 fn rand_bytes(ctx: &mut Ctx, n: usize) -> Vec<u8> {
@@ -63,17 +65,22 @@ async fn run_async(ctx: &mut Ctx, opts: Opts) {
     let fault_free = ctx.tape.choose(6) == 0;
     let load_ms = 2000 + ctx.tape.choose(6000) as u64;
     let mut cfgs = vec![];
+    // session knobs are enabled in a third of the runs (then per node with probability 1/2)
+    let session_knobs = ctx.tape.choose(3) == 0;
+    // a fifth of the runs happen on an IPv6-only network
+    let v6 = ctx.tape.choose(5) == 0;
     for i in 0..=np {
         let mut c = NodeCfg::new(8 + i + 8 * ctx.tape.choose(6) as usize);
         c.request_timeout_ms = *ctx.tape.pick(&[1000u64, 200, 500, 2000]);
         c.request_retries = 1 + ctx.tape.choose(3) as u8;
         c.packet_filter = opts.c13 && ctx.tape.choose(2) == 1;
+        c.v6 = v6;
         // tuning knobs: a session cache so small, or a session lifetime so short, that sessions are
         // evicted or expire in the middle of the traffic
-        if ctx.tape.choose(4) == 0 {
+        if session_knobs && ctx.tape.choose(2) == 0 {
             c.session_capacity = 1 + ctx.tape.choose(2) as usize;
         }
-        if ctx.tape.choose(4) == 0 {
+        if session_knobs && ctx.tape.choose(2) == 0 {
             c.session_timeout_ms = *ctx.tape.pick(&[300u64, 1500, 5000]);
         }
         cfgs.push(c);
@@ -92,6 +99,10 @@ async fn run_async(ctx: &mut Ctx, opts: Opts) {
     let bound_ms = 4 * (max_retries + 1) * max_to + 2000 + max_app_delay;
     let horizon = u64::MAX / 4;
     let mut w: HWorld<X> = HWorld::new(horizon);
+    if v6 {
+        ctx.count("ipv6_runs");
+        w.attacker_addrs = vec!["[fd00:9::1]:30303".parse().unwrap(), "[fd00:9::2]:30304".parse().unwrap()];
+    }
     if !fault_free {
         let p = &mut w.profile;
         if ctx.tape.choose(2) == 1 {
@@ -105,6 +116,12 @@ async fn run_async(ctx: &mut Ctx, opts: Opts) {
             p.max_delay_ms = *ctx.tape.pick(&[30u32, 400, 2500]);
         }
         p.jitter_ms = *ctx.tape.pick(&[0u32, 3, 40]);
+        if ctx.tape.choose(3) == 0 {
+            p.corrupt_pct = *ctx.tape.pick(&[2u32, 10]);
+        }
+        if ctx.tape.choose(3) == 0 {
+            p.replay_pct = *ctx.tape.pick(&[3u32, 15]);
+        }
     }
     let slow_app = !fault_free && ctx.tape.choose(3) == 0;
     let silent_pct = if fault_free { 0 } else { *ctx.tape.pick(&[0u32, 0, 10, 40]) };
@@ -189,7 +206,8 @@ async fn run_async(ctx: &mut Ctx, opts: Opts) {
     let mut emitted_to: BTreeMap<(usize, std::net::SocketAddr), Vec<u64>> = BTreeMap::new();
     let mut stop_ms = u64::MAX;
     // outstanding WHOAREYOUs per (node, addr): emission times
-    let mut challenges: BTreeMap<(usize, std::net::SocketAddr), Vec<u64>> = BTreeMap::new();
+    // outstanding WHOAREYOUs per (node, address): (time sent or re-armed, the node id it was addressed to)
+    let mut challenges: BTreeMap<(usize, std::net::SocketAddr), Vec<(u64, [u8; 32])>> = BTreeMap::new();
     let mut malicious_touched: BTreeSet<usize> = BTreeSet::new();
     let mut check_pending = false;
     let mut last_jump_ms: u64 = 0;
@@ -210,6 +228,14 @@ async fn run_async(ctx: &mut Ctx, opts: Opts) {
         let obs = w.next().await;
         w.absorb_keys();
         for rt in discv5::verif::take_request_log() {
+            if !rt.internal {
+                let id = rid_num(&discv5::verif::RequestId(rt.request_id.clone()));
+                if let Some(r) = reqs.get_mut(&id) {
+                    if w.nodes[r.node].id == rt.local {
+                        r.transmitted = true;
+                    }
+                }
+            }
             req_by_nonce.insert(rt.message_nonce, rt);
         }
         if opts.c13 {
@@ -228,7 +254,7 @@ async fn run_async(ctx: &mut Ctx, opts: Opts) {
                 emitted_to.entry((from, out.0)).or_default().push(now_ms());
                 if let Some(d) = &w.wire[wi].dec {
                     if matches!(d.kind, PacketKind::WhoAreYou { .. }) {
-                        challenges.entry((from, out.0)).or_default().push(now_ms());
+                        challenges.entry((from, out.0)).or_default().push((now_ms(), out.1.raw()));
                     }
                 }
                 if opts.c04 || opts.c13 {
@@ -276,11 +302,13 @@ async fn run_async(ctx: &mut Ctx, opts: Opts) {
                     // a handshake that arrives while a challenge to that address is outstanding may be
                     // rejected for its signature, which re-inserts the challenge and re-arms its expiry
                     if let Ok(d) = toolkit::decode_packet(&w.nodes[to].id, &bytes) {
-                        if matches!(d.kind, PacketKind::Handshake { .. }) {
+                        if let PacketKind::Handshake { src_id, .. } = &d.kind {
+                            // (the challenge concerned is the one addressed to the id the handshake claims: a
+                            // corrupted packet may have made the node challenge another id at the same address)
                             let tmo = w.nodes[to].cfg.request_timeout_ms;
                             if let Some(v) = challenges.get_mut(&(to, src)) {
-                                if let Some(last) = v.iter_mut().rev().find(|t| **t + tmo + 1 >= now_ms()) {
-                                    *last = now_ms();
+                                if let Some(last) = v.iter_mut().rev().find(|(t, id)| *t + tmo + 1 >= now_ms() && *id == src_id.raw()) {
+                                    last.0 = now_ms();
                                 }
                             }
                         }
@@ -297,7 +325,7 @@ async fn run_async(ctx: &mut Ctx, opts: Opts) {
                     next_rid += 1;
                     let is_findnode = matches!(body, RequestBody::FindNode { .. });
                     ctx.ev(format!("t={} n{node} submit r{id} -> n{peer} {} enr={with_enr}", now_ms(), body_name(&body)));
-                    reqs.insert(id, Req { node, peer, submitted_ms: now_ms(), is_findnode, with_enr, total: None, responses: 0, terminal: None });
+                    reqs.insert(id, Req { node, peer, submitted_ms: now_ms(), is_findnode, with_enr, total: None, responses: 0, terminal: None, transmitted: false });
                     let contact = w.contact(peer, with_enr);
                     w.send_in(node, HandlerIn::Request(contact, Box::new(Request { id: rid(id), body })));
                 }
@@ -572,7 +600,7 @@ fn check_exemption_upper(
     ctx: &mut Ctx,
     w: &HWorld<X>,
     reqs: &BTreeMap<u64, Req>,
-    challenges: &BTreeMap<(usize, std::net::SocketAddr), Vec<u64>>,
+    challenges: &BTreeMap<(usize, std::net::SocketAddr), Vec<(u64, [u8; 32])>>,
     node: usize,
     internal_tx: &BTreeMap<(usize, usize, u64), u64>,
     resp_delivered: &BTreeMap<(usize, usize, u64), u64>,
@@ -584,13 +612,28 @@ fn check_exemption_upper(
     let now = now_ms();
     let to = w.nodes[node].cfg.request_timeout_ms;
     let life = 4 * (w.nodes[node].cfg.request_retries as u64 + 1) * to;
-    for (addr, cnt) in w.exemptions(node) {
+    // lower bound: every request that was transmitted and has no outcome yet is certainly outstanding
+    let ex = w.exemptions(node);
+    for p in 0..w.nodes.len() {
+        let addr = w.nodes[p].addr;
+        let certainly = reqs.values().filter(|r| r.node == node && r.peer == p && r.transmitted && r.terminal.is_none()).count();
+        let cnt = ex.get(&addr).copied().unwrap_or(0);
+        if cnt < certainly {
+            ctx.fail(
+                "c13.exemption-below-outstanding",
+                format!("n{node}: {cnt} exemptions for {addr} although {certainly} transmitted requests to it are still without an outcome"),
+                &[],
+            );
+            return;
+        }
+    }
+    for (addr, cnt) in ex {
         let open_reqs = reqs.values().filter(|r| r.node == node && w.nodes[r.peer].addr == addr && r.terminal.as_ref().map(|(t, _)| *t + 2 >= now).unwrap_or(true)).count();
         let internal = internal_tx
             .iter()
             .filter(|((n, p, id), t0)| *n == node && w.nodes[*p].addr == addr && (**t0).max(last_jump_ms) + life >= now && resp_delivered.get(&(node, *p, *id)).map(|td| *td + 2 >= now).unwrap_or(true))
             .count();
-        let open_ch = challenges.get(&(node, addr)).map(|v| v.iter().filter(|t| (**t).max(last_jump_ms) + to + 2 >= now).count()).unwrap_or(0);
+        let open_ch = challenges.get(&(node, addr)).map(|v| v.iter().filter(|(t, _)| (*t).max(last_jump_ms) + to + 2 >= now).count()).unwrap_or(0);
         if cnt > open_reqs + internal + open_ch {
             ctx.fail(
                 "c13.exemption-exceeds-outstanding",
